@@ -162,6 +162,17 @@ def hb_cursor_rule(run, prog, RULE):
                what="set_heart_beat(ob,0) adjusts %s for entries that are not part of the running round (or not at all): objects are skipped or called twice in that tick" % var)
 
 
+
+def _flag_clear(c, truth):
+    """the variable a branch fact says is zero: `!x` / `x == 0` true, `x` / `x != 0` false"""
+    e, t = normalize_cond(c, truth)
+    e = strip(e)
+    if e.get("k") == "Ref" and t is False:
+        return e
+    if e.get("k") == "Bin" and e.get("op") in ("==", "!=") and const_val(e["R"]) == 0 and strip(e["L"]).get("k") == "Ref" and (t is True) == (e["op"] == "=="):
+        return strip(e["L"])
+    return None
+
 def check(run, prog, tier):
     run.rule("C11-a", "error_handler: on the uncaught path with current_heart_beat set, set_heart_beat(current_heart_beat,0) and the clearing store precede the jump; current_heart_beat has no other writers; it is set before the heart_beat call", 4)
     run.rule("C11-b", "destruct_object: set_heart_beat(ob, 0) dominates the store that sets O_DESTRUCTED", 1)
@@ -281,3 +292,37 @@ def check(run, prog, tier):
             run.ob("C11-f", "flag-writer:%s:%s" % (f.name, n.get("op")), ok, why, f.file, n.get("l"), f.name,
                    what="%s - the flag and the heart-beat table disagree afterwards: a later set_heart_beat()/query_heart_beat() that trusts the bit leaves a stale entry or appends a second one" % why)
     run.need(nfw >= 2, "stores of O_HEART_BEAT into object flags (found %d)" % nfw)
+
+    # ---- C11-g a round that is run outside the main loop is run once
+    run.rule("C11-g", "a function that arms a recovery point with setjmp() and runs a heart-beat round in the code between the setjmp() and its main loop re-enters that code after every uncaught error: the round is under a once-flag that is set BEFORE the round is called (a heart_beat that raises jumps back to the setjmp; a flag set after the call is still clear then, and the objects in front of the failing one get a second heart_beat in the same tick)", 1)
+    ng = 0
+    for f in sorted(prog.functions(), key=lambda x: (x.file, x.line)):
+        sj = [(b, i, n) for b, i, n in f.calls() if n.get("fn") in ("setjmp", "_setjmp", "__sigsetjmp", "sigsetjmp")]
+        rounds = [(b, i, n) for b, i, n in f.calls("call_heart_beat")]
+        if not sj or not rounds:
+            continue
+        sjb = sj[0][0]
+        heads = [bid for bid in f.reachable() if any(f.dominates(bid, p) for p in f.blocks[bid].preds) and f.dominates(sjb.id, bid)]
+        outer = [h for h in heads if all(f.dominates(h, o) for o in heads)]
+        head = outer[0] if outer else (heads[0] if heads else None)
+        region = cfgq.reach_set(f, sjb.live_succ(), avoid_blocks=[head] if head is not None else [])
+        for j, (b, i, n) in enumerate(rounds):
+            if b.id not in region:
+                continue
+            ng += 1
+            run.saw(f)
+            once, late = False, None
+            for c, truth, B in cfgq.guards(f, b.id):
+                e = _flag_clear(c, truth)
+                if e is not None and e.get("d") in ("local", "slocal", "static"):
+                    for b2, i2, n2 in f.nodes():
+                        if n2.get("k") == "Asg" and strip(n2["L"]).get("k") == "Ref" and strip(n2["L"]).get("n") == e.get("n") and strip(n2["L"]).get("id") == e.get("id") and const_val(n2["R"]) not in (None, 0):
+                            if f.point_dominates((b2.id, i2), (b.id, i)) and f.dominates(B, b2.id):
+                                once = True
+                            else:
+                                late = (e.get("n"), n2.get("l"))
+            run.ob("C11-g", "once:%s:%d" % (f.name, j), once, "call_heart_beat() at line %s runs under a flag that is set before the call" % n.get("l") if once else
+                   ("call_heart_beat() at line %s is re-entered after an uncaught error in a heart_beat: `%s` is set at line %s, after the call, so it is still clear when the error jumps back to the setjmp() - the round starts again in the same tick" % (n.get("l"), late[0], late[1]) if late else
+                    "call_heart_beat() at line %s lies between setjmp() and the main loop without a once-flag: it is run again after every uncaught error" % n.get("l")),
+                   f.file, n.get("l"), f.name, what="%s runs a heart-beat round again after an uncaught error" % f.name)
+    run.need(ng >= 1, "heart-beat rounds in code re-entered after a recovery point (found %d)" % ng)
